@@ -126,13 +126,17 @@ class PaneBase:
         )
 
     def __replace__(self, /, **changes: t.Any) -> Self:
-        set_fields = getattr(self, PANE_SET_FIELDS)
-        d = {
-            field.name: getattr(self, field.name)
-            for field in self.__pane_info__.fields if field.name in set_fields
-        }
-        d.update(**changes)
-        return self.__class__(**d)
+        fields = {field.name: field for field in self.__pane_info__.fields}
+        for name in changes:
+            if name not in fields or not fields[name].init:
+                raise TypeError(f"{self.__class__.__name__}.__replace__() got an unexpected keyword argument '{name}'")
+        # the changes are converted as the constructor would; every other field is carried over as it is
+        handlers = self.__pane_info__.opts.class_handlers or None
+        d = {name: getattr(self, name) for name in fields if hasattr(self, name)}
+        for (name, val) in changes.items():
+            field = fields[name]
+            d[name] = field.converter.convert(val) if field.converter is not None else convert(val, field.type, custom=handlers)
+        return self.from_dict_unchecked(d, set_fields=getattr(self, PANE_SET_FIELDS) | changes.keys())
 
     @classmethod
     def _converter(cls: t.Type[PaneBaseT], *args: t.Type[Convertible],
